@@ -2,8 +2,8 @@ SPECIFICATION Spec
 CONSTANTS
   MaxLen = 4
   K = 2
-  MatIds = {"ident", "zero", "neg", "asym", "cross"}
-  GapSet <- GapsQuick
+  MatIds = {"ident", "cross"}
+  GapSet <- GapsLen4
 INVARIANT InvScoreIsOptimum
 INVARIANT InvTracesOptimal
 INVARIANT InvGlobalComplete
